@@ -20,6 +20,7 @@ type Clause struct {
 	Tag  string   // optional label (name:)
 	Line int
 	File string
+	Local bool // `check`: proved at the function's returns (may name locals), not exported to callers
 }
 
 type AtCall struct {
@@ -51,6 +52,7 @@ type FuncContract struct {
 	TrustedEnsures []Clause // assumed at call sites, NOT checked against the body (listed as assumptions)
 	Assigns  []Clause // each a location expression
 	HasAssigns bool
+	FrameTrusted bool
 	AssignsEverything bool
 	Aborts   []Clause // allowed panic conditions
 	Loops    map[int]*LoopSpec
@@ -61,6 +63,7 @@ type FuncContract struct {
 	NoReturn bool // callee never returns (PanicSanity...)
 	NoAlloc  bool // callee returns no freshly allocated object (allocation clock not advanced at call sites)
 	NoSafety bool
+	OrderOnly bool
 	Wraparound bool // signed arithmetic of this function wraps (two's complement) instead of being mathematical
 	Inline   bool
 	Lets     []LetDef
@@ -403,7 +406,7 @@ func (cs *Contracts) LoadContractFile(file, pkgPath string) error {
 			case cur != nil:
 				cur.Props = ps
 			}
-		case "requires", "ensures":
+		case "requires", "ensures", "check":
 			if cur == nil {
 				return fmt.Errorf("%s:%d: %s outside func", file, rl.line, kw)
 			}
@@ -414,6 +417,7 @@ func (cs *Contracts) LoadContractFile(file, pkgPath string) error {
 			if kw == "requires" {
 				cur.Requires = append(cur.Requires, c)
 			} else {
+				c.Local = kw == "check"
 				cur.Ensures = append(cur.Ensures, c)
 			}
 		case "trusted-ensures":
@@ -456,11 +460,15 @@ func (cs *Contracts) LoadContractFile(file, pkgPath string) error {
 				return err
 			}
 			cur.Lets = append(cur.Lets, LetDef{Name: strings.TrimSpace(rest[:i]), C: c})
-		case "assigns":
+		case "assigns", "trusted-assigns":
 			if cur == nil {
 				return fmt.Errorf("%s:%d: assigns outside func", file, rl.line)
 			}
 			cur.HasAssigns = true
+			if kw == "trusted-assigns" {
+				// the frame is assumed by callers but not checked against the body (listed in evidence)
+				cur.FrameTrusted = true
+			}
 			if rest == "nothing" {
 				break
 			}
@@ -549,6 +557,11 @@ func (cs *Contracts) LoadContractFile(file, pkgPath string) error {
 			cur.NoSafety = true
 		case "wraparound":
 			cur.Wraparound = true
+		case "orderonly":
+			// examined for the order of its calls only: no implicit safety obligations, callee preconditions are not
+			// checked and callee postconditions/frames are not relied upon (every call is treated as an unknown call)
+			cur.NoSafety = true
+			cur.OrderOnly = true
 		case "inline":
 			cur.Inline = true
 		case "spec", "define", "pred":
